@@ -351,7 +351,9 @@ func judgeMessages(c *Case, w *world, st *stats) []violation {
 					add("aggregator-without-selection-proof", "slot %d: validator %d contributed for subcommittee %d although it has no selection proof (proof %#x…)", n, k.v, k.sub, cp.SelectionProof[:8])
 					continue
 				case mem.FailCap:
-					add("unsigned-contribution-submitted", "slot %d: contribution of validator %d submitted although its signature failed (signature %#x…)", n, k.v, scp.Signature[:8])
+					// Not judged: the statement only demands that the others are not suppressed; whether the
+					// entry of a member whose signature was refused is in the batch or not is left open.
+					st.label("unsigned-contribution-in-batch")
 					continue
 				case !isExpected:
 					add("contribution-for-foreign-subcommittee", "slot %d: validator %d contributed for subcommittee %d in which it has no seat", n, k.v, k.sub)
